@@ -34,7 +34,9 @@ Del(f, K) == [x \in DOMAIN f \ K |-> f[x]]
 
 (* ====================================================================== Protocol (C04) *)
 (* The shim's view is built from what the shim sent and what it received - never from the projection.       *)
-(* keys[k] \in {"out","bound","relReq","relAnn"}; kapp[k] = application; apps/nodes: "accepted"/"removed".   *)
+(* keys[k] \in {"out","bound","relReq","relAnn","relAnnOut"}; kapp[k] = application; apps/nodes: "accepted"/"removed". *)
+(* relAnn: the core asked the shim to release a bound allocation; relAnnOut: the same for an ask that was only outstanding *)
+(* (placeholder timeout): the core has dropped it already, so a release of it by the shim is not answered.           *)
 SV0 == [keys |-> EmptyF, kapp |-> EmptyF, apps |-> EmptyF, nodes |-> EmptyF]
 ShimOp(v, e) ==
    CASE e.op = "reset" -> SV0
@@ -46,17 +48,17 @@ ShimOp(v, e) ==
      \* releasing an ask that is still outstanding ends it at once (the core sends nothing); releasing a bound allocation
      \* is answered by the core's release announcement
      [] e.op = "release" -> IF e.key \in DOMAIN v.keys /\ v.kapp[e.key] = e.app
-                            THEN (IF v.keys[e.key] = "out" THEN [v EXCEPT !.keys = Del(v.keys, {e.key})] ELSE [v EXCEPT !.keys = Upd(v.keys, e.key, "relReq")])
+                            THEN (IF v.keys[e.key] \in {"out", "relAnnOut"} THEN [v EXCEPT !.keys = Del(v.keys, {e.key})] ELSE [v EXCEPT !.keys = Upd(v.keys, e.key, "relReq")])
                             ELSE v
      \* a release without a key gives up everything of the application: outstanding asks end at once, bound allocations
      \* are answered by release announcements
      [] e.op = "releaseAll" ->
             LET mine == {k \in DOMAIN v.keys : v.kapp[k] = e.app} IN
-            [v EXCEPT !.keys = [k \in DOMAIN v.keys \ {k \in mine : v.keys[k] = "out"} |-> IF k \in mine THEN "relReq" ELSE v.keys[k]]]
-     [] e.op = "confirm" -> IF ~e.none /\ ~e.keep /\ e.key \in DOMAIN v.keys /\ v.keys[e.key] = "relAnn" THEN [v EXCEPT !.keys = Del(v.keys, {e.key})] ELSE v
+            [v EXCEPT !.keys = [k \in DOMAIN v.keys \ {k \in mine : v.keys[k] \in {"out", "relAnnOut"}} |-> IF k \in mine THEN "relReq" ELSE v.keys[k]]]
+     [] e.op = "confirm" -> IF ~e.none /\ ~e.keep /\ e.key \in DOMAIN v.keys /\ v.keys[e.key] \in {"relAnn", "relAnnOut"} THEN [v EXCEPT !.keys = Del(v.keys, {e.key})] ELSE v
      [] e.op = "removeApp" ->
             LET mine == {k \in DOMAIN v.keys : v.kapp[k] = e.app} IN
-            [v EXCEPT !.keys = [k \in DOMAIN v.keys \ {k \in mine : v.keys[k] = "out"} |-> IF k \in mine THEN "relReq" ELSE v.keys[k]],
+            [v EXCEPT !.keys = [k \in DOMAIN v.keys \ {k \in mine : v.keys[k] \in {"out", "relAnnOut"}} |-> IF k \in mine THEN "relReq" ELSE v.keys[k]],
                       !.apps = IF e.app \in DOMAIN v.apps /\ v.apps[e.app] = "accepted" THEN Upd(v.apps, e.app, "removed") ELSE v.apps]
      [] e.op = "removeNode" -> IF e.node \in DOMAIN v.nodes /\ v.nodes[e.node] = "accepted" THEN [v EXCEPT !.nodes = Upd(v.nodes, e.node, "removing")] ELSE v
      [] OTHER -> v
@@ -72,7 +74,7 @@ OneMsg(acc, m, e) == LET v == acc[1]
      [] m.t = "release" ->
           LET ok == m.key \in DOMAIN v.keys /\ v.kapp[m.key] = m.app IN
           <<IF ~ok THEN v ELSE IF m.term = "STOPPED_BY_RM" THEN [v EXCEPT !.keys = Del(v.keys, {m.key})]
-                               ELSE [v EXCEPT !.keys = Upd(v.keys, m.key, "relAnn")],
+                               ELSE [v EXCEPT !.keys = Upd(v.keys, m.key, IF v.keys[m.key] \in {"out", "relAnnOut"} THEN "relAnnOut" ELSE "relAnn")],
             IF ok THEN c ELSE c \cup {<<"release", m.key, m.term>>}>>
      [] m.t = "allocRejected" ->
           <<IF e.op \in {"addAsk", "reportBound", "updateAsk"} /\ m.key = e.key /\ m.key \in DOMAIN v.keys /\ v.kapp[m.key] = e.app
